@@ -78,7 +78,11 @@ where
         use embedded_graphics::primitives::Rectangle;
         let around = Rectangle::new(Point::new(tl.0 - 1, tl.1 - 1), Size::new(aw + 2, ah + 2));
         let cutting = Rectangle::new(Point::new(tl.0 + (aw / 2) as i32, tl.1 + (ah / 2) as i32), Size::new(aw + 3, ah + 3));
-        for (wname, win) in [("window around the image", around), ("window cutting the image", cutting)] {
+        // the image starts exactly on the window's last column / last row / bottom-right pixel
+        let last_col = Rectangle::new(Point::new(tl.0 - 2, tl.1), Size::new(3, ah));
+        let last_row = Rectangle::new(Point::new(tl.0, tl.1 - 2), Size::new(aw, 3));
+        let corner = Rectangle::new(Point::new(tl.0 - 3, tl.1 - 3), Size::new(4, 4));
+        for (wname, win) in [("window around the image", around), ("window cutting the image", cutting), ("window whose last column is the image's first", last_col), ("window whose last row is the image's first", last_row), ("window whose bottom-right pixel is the image's first", corner)] {
             let mut wd = RecD::<I::Color>::with_box(win);
             image.draw(&mut wd).unwrap();
             let mut wn = RecN::<I::Color>::with_box(win);
